@@ -2,8 +2,9 @@ INIT Init
 NEXT Next
 CONSTANTS
   Part = "algebra"
-  L = 6
-  Cut = 8
+  L = 5
+  Cut = 6
+  Stride = 1
 INVARIANT LawOutDomain
 INVARIANT LawSame
 INVARIANT LawPreserving
